@@ -867,13 +867,15 @@ func c06ReplyKind(r *Run) {
 			}
 			// returns a nil error: the path must have decided that the reply is nil (nothing expected)
 			// or that the assertion succeeded
+			// — decided *that way round*: "the assertion succeeded" or "the reply is nil", not merely
+			// that one of them was looked at
 			decided := false
 			for _, c := range p.Conds {
-				if ex, ok := c.Cond.(*ssa.Extract); ok && ex.Tuple == ssa.Value(ta) && ex.Index == 1 {
+				if ex, ok := c.Cond.(*ssa.Extract); ok && ex.Tuple == ssa.Value(ta) && ex.Index == 1 && c.Val {
 					decided = true
 				}
-				if x, _, isCmp := isNilCmp(c.Cond); isCmp && x == replyVal {
-					decided = true
+				if x, eq, isCmp := isNilCmp(c.Cond); isCmp && x == replyVal && eq == c.Val {
+					decided = true // (reply == nil) true, or (reply != nil) false
 				}
 			}
 			if !ta.CommaOk {
